@@ -21,7 +21,7 @@ from ..doubles import FakeConn, FakeListener, ScriptedSend, Stream, make_poller_
 SPEC = 'spec/io'
 TRANSIENT = ['EAGAIN', 'EWOULDBLOCK', 'EINTR', 'ENOBUFS']
 FATAL = ['EPIPE', 'ECONNRESET']
-ENDPOINTS = ['Server', 'Client', 'File']
+ENDPOINTS = ['Server', 'Client', 'File', 'FileStr']     # FileStr: File written with str payloads (multi-byte UTF-8)
 
 
 class Endpoint:
@@ -37,7 +37,7 @@ class Endpoint:
         self.poller = make_poller_double().register(self.root)
         self._signals = 0
         self._patched = None
-        getattr(self, '_setup_' + kind)()
+        getattr(self, '_setup_' + ('File' if kind == 'FileStr' else kind))()
 
     # -- observers ---------------------------------------------------------
     def _observer(self, names, channel):
@@ -109,7 +109,18 @@ class Endpoint:
     # -- driving -----------------------------------------------------------
     def write(self, n):
         from circuits.net.events import write
-        data = self.stream.payload(n)
+        if self.kind == 'FileStr':
+            # text whose UTF-8 encoding has exactly n bytes, mixing 1-, 2- and 3-byte characters
+            chars = []
+            left = n
+            while left > 0:
+                c = self.stream.rnd.choice(['a', '\u00e9', '\u20ac'][:min(left, 3)])
+                chars.append(c)
+                left -= len(c.encode('utf-8'))
+            data = ''.join(chars)
+            self.stream.data += data.encode('utf-8')
+        else:
+            data = self.stream.payload(n)
         self.log.append({'k': 'write', 'a': n, 'b': 0, 'r': ''})
         if self.kind == 'Server':
             self.root.fire(write(self.sock, data), 'ep')
@@ -120,10 +131,14 @@ class Endpoint:
     def is_writing(self):
         return self.poller.isWriting(self.fd)
 
-    def ready(self, outcome=None):
+    def ready(self, outcome=None, spare=None):
+        """one write-readiness event; `outcome` answers the endpoint's send(), `spare` would answer a
+        second send() in the same event (an endpoint that sends once never consumes it)"""
         from circuits.core.pollers import _write
         if outcome is not None:
             self.script.next.append(outcome)
+            if spare is not None:
+                self.script.next.append(spare)
         self.root.fire(_write(self.fd), 'ep')
         self.settle()
         self._sync_close()
@@ -140,7 +155,7 @@ class Endpoint:
         self._sync_close()
 
     def _sync_close(self):
-        if self.kind == 'File' and self.fobj.closed and not self.script.closed:
+        if self.kind in ('File', 'FileStr') and self.fobj.closed and not self.script.closed:
             self.script.closed = True
             self.log.append({'k': 'close', 'a': 0, 'b': 0, 'r': ''})
 
@@ -155,7 +170,7 @@ class Endpoint:
         if self._patched:
             self._patched[0].fd_write = self._patched[1]
         try:
-            if self.kind == 'File':
+            if self.kind in ('File', 'FileStr'):
                 if not self.fobj.closed:
                     self.fobj.close()
                 os.unlink(self.path)
@@ -167,7 +182,7 @@ class Endpoint:
             pass
 
 
-def realise(hist, variant, scale, kind='Server'):
+def realise(hist, variant, scale, kind='Server', spare=0):
     """Model history -> concrete script, or None if the history does not apply
     to this endpoint kind.  hist items: ["W", n, 0] | ["R", kind, k] | ["C", "", 0]
     | ["Q", "", 0].  variant picks the errno for the j-th transient outcome;
@@ -183,7 +198,10 @@ def realise(hist, variant, scale, kind='Server'):
         elif op == 'R':
             k = h[1]
             if k == 'accept':
-                out.append(('R', ('accept', h[2] * scale)))
+                # spare: what a second send() in the same readiness event would get (1: refused
+                # transiently, 2: nothing accepted); an endpoint that sends once per event ignores it
+                sp = None if spare == 0 else (('transient', TRANSIENT[(variant + j) % len(TRANSIENT)]) if spare == 1 else ('accept', 0))
+                out.append(('R', ('accept', h[2] * scale)) + ((sp,) if sp else ()))
             elif k == 'transient':
                 out.append(('R', ('transient', TRANSIENT[(variant + j) % len(TRANSIENT)])))
                 j += 1
@@ -214,7 +232,7 @@ def run_script(kind, script, seed=1):
                 if not ep.is_writing():
                     notes.append('not-writing-at-ready')
                     continue
-                ep.ready(step[1])
+                ep.ready(step[1], step[2] if len(step) > 2 else None)
             elif step[0] == 'C':
                 ep.closereq()
         ep.quiesce()
@@ -248,7 +266,10 @@ def random_script(rnd, maxlen, sizes):
         elif r < 0.9:
             q = rnd.random()
             if q < 0.55:
-                script.append(('R', ('accept', rnd.choice([0, 1, 2, 5, 100, 4096, 70000, 1 << 20, 1 << 30]))))
+                st = ('R', ('accept', rnd.choice([0, 1, 2, 5, 100, 4096, 70000, 1 << 20, 1 << 30])))
+                if rnd.random() < 0.4:
+                    st = st + (rnd.choice([('transient', rnd.choice(TRANSIENT)), ('accept', 0), ('fatal', rnd.choice(FATAL))]),)
+                script.append(st)
             elif q < 0.92:
                 script.append(('R', ('transient', rnd.choice(TRANSIENT))))
             else:
@@ -364,7 +385,7 @@ def run(tier, replay=None):
                 for scale in scales:
                     if scale != 1 and variant != idx % 4:
                         continue
-                    script = realise(h, variant, scale, kind)
+                    script = realise(h, variant, scale, kind, spare=(idx + variant) % 3)
                     if script is None:
                         continue
                     lines, notes, full = run_script(kind, script, seed=idx)
@@ -385,7 +406,7 @@ def run(tier, replay=None):
     nrand = 300 if quick else 6000
     sizes = [0, 1, 3, 17, 4096, 70000] + ([3 << 20] if not quick else [])
     for i in range(nrand):
-        kind = ENDPOINTS[i % 3]
+        kind = ENDPOINTS[i % len(ENDPOINTS)]
         script = random_script(rnd, 14 if quick else 30, sizes)
         lines, notes, full = run_script(kind, script, seed=1000 + i)
         traces.append(({'endpoint': kind, 'script': script, 'origin': 'random', 'notes': notes}, lines, full))
